@@ -50,7 +50,12 @@ Record script := {
   sc_turns : list turn }.
 Record item := { it_wish : wish; it_rows : N; it_val : Z }.   (* exchange input: rows values, all val; producer: a tick *)
 Record call := {
-  c_method : mname; c_adv : adv; c_wish : wish; c_x : Z;
+  c_method : mname;
+  c_dyn : bool;                    (* MProd / MExch: the call goes to the DYNAMIC stream method (DynamicStreamWithHeader), whose
+                                      init handler returns a producer resp. exchange state and no header. On a pipe a dynamic
+                                      method is served exactly like the static one - every definition below ignores this
+                                      field, so every theorem covers both registrations; the harness routes accordingly *)
+  c_adv : adv; c_wish : wish; c_x : Z;
   c_script : script; c_items : list item;
   c_release_now : bool }.          (* the client frees the pointers of this response at once / at the end *)
 
